@@ -561,7 +561,7 @@ func TestVerifC07(t *testing.T) {
 	defer debug.SetGCPercent(debug.SetGCPercent(400)) // thousands of short-lived host triples: trade memory for GC work
 	depth := 3
 	if vrep.Thorough() {
-		depth = 4
+		depth = 1 << 20 // the state space is finite (46 mux configurations x 8 snapshots x 8 knowledge sets): closure
 	}
 	if v, err := strconv.Atoi(os.Getenv("VERIF_C07_DEPTH")); err == nil && v > 0 {
 		depth = v // experiments only; the evidence reports the depth actually used
